@@ -157,6 +157,10 @@ func (mo *Model) match(s State, l, r any) (State, any, bool) {
 		if r == nil {
 			return mo.match(s, l, nil)
 		}
+	case *ast.Ident:
+		if r == nil {
+			return mo.match(s, l, nil)
+		}
 	}
 	if isSpecial(l) {
 		return mo.special(s, l, r)
